@@ -465,6 +465,8 @@ func (pr *printer) flow(f *FlowP) string {
 	for k, t := range f.Results {
 		fmt.Fprintf(&fb, "\tr%d := %s(%d)\n", k, pr.mk(f.Types, t), Sentinel)
 	}
+	// statements before / after the directive that its options ask for
+	var pre, post strings.Builder
 	// options, in shuffled order
 	var items []renderItem
 	if len(f.Params) > 0 {
@@ -549,7 +551,16 @@ func (pr *printer) flow(f *FlowP) string {
 				opts = append(opts, func() string {
 					var a []string
 					for k, o := range t.Out {
-						a = append(a, pr.probe("fallback", fmt.Sprintf("%s(%d)", pr.mk(f.Types, o), FBVal(pr.p.ID, t.ID, k))))
+						val := fmt.Sprintf("%s(%d)", pr.mk(f.Types, o), FBVal(pr.p.ID, t.ID, k))
+						if (t.ID+k)%2 == 0 {
+							// the fallback value lives in a variable of the caller, which
+							// the caller overwrites once the directive has returned
+							v := fmt.Sprintf("fb%d_%d", t.ID, k)
+							fmt.Fprintf(&pre, "\t%s := %s\n", v, val)
+							fmt.Fprintf(&post, "\t%s = %s(%d)\n\t_ = %s\n", v, pr.mk(f.Types, o), MutVal, v)
+							val = v
+						}
+						a = append(a, pr.probe("fallback", val))
 					}
 					return "cff.FallbackWith(" + strings.Join(a, ", ") + ")"
 				})
@@ -584,7 +595,8 @@ func (pr *printer) flow(f *FlowP) string {
 			pr.errAt, pr.errWhat = 0, "concurrency"
 		}
 	}
-	fb.WriteString("\terr = cff.Flow(" + pr.probe("ctx", "ctx"))
+	var dir strings.Builder
+	dir.WriteString("\terr = cff.Flow(" + pr.probe("ctx", "ctx"))
 	seenInstrFlow := false
 	for _, it := range items {
 		if it.instrFlow {
@@ -593,9 +605,12 @@ func (pr *printer) flow(f *FlowP) string {
 		if it.task != nil {
 			it.task.AutoInstr = pr.p.AutoInstr && seenInstrFlow && !it.task.Instr
 		}
-		fb.WriteString(",\n\t\t" + it.render())
+		dir.WriteString(",\n\t\t" + it.render())
 	}
-	fb.WriteString(",\n\t)\n")
+	dir.WriteString(",\n\t)\n")
+	fb.WriteString(pre.String())
+	fb.WriteString(dir.String())
+	fb.WriteString(post.String())
 	fb.WriteString("\treturn []uint64{")
 	for k, t := range f.Results {
 		if k > 0 {
